@@ -143,7 +143,7 @@ func Implies(a, b Term) Term {
 	}
 	return App("=>", SBool, a, b)
 }
-func Eq(a, b Term) Term  { return App("=", SBool, a, b) }
+func Eq(a, b Term) Term { return App("=", SBool, a, b) }
 func Ite(c, a, b Term) Term {
 	if c.S == "true" {
 		return a
